@@ -3,11 +3,25 @@ import KyupyVerif.Proofs.SpecHom
 import KyupyVerif.Proofs.SpecHazard
 import KyupyVerif.Proofs.WaveHazard
 import KyupyVerif.Proofs.Capture
+import KyupyVerif.Proofs.AllCircWave
+import KyupyVerif.Proofs.AllCircDemo
 /-! # C05 — 8-valued logic simulation conservatively predicts timing simulation
 
 `semL8` = what the real 8-valued `LogicSim.c_prop` chain computes for an op row (generated),
 `waveSem` = the transcription of `_wave_eval` (tied by correspondence, see C03).
-Relation `Abs v w`: the 8-valued value `v` abstracts the waveform `w`. -/
+Relation `Abs v w`: the 8-valued value `v` abstracts the waveform `w`.
+
+**Theorem, per program:** `gate_abstracts`, `sim8_predicts` (every op program over known op codes, `cfg.Good`).
+**Theorem, per NETLIST** (part "ALL circuits"): for every well-formed netlist (`Net.wfB`), every topological order
+(`orderOKB`), the op program of the `SimOps` model with the generated prefix table, delays ≥ 0, capacities ≥ 4 on the lines
+and the scratch slot: `sim8_predicts_all_circuits` / `sim8_predicts_stimulus_all_circuits` (stimulus over {0, 1, R, F} with
+any times) — `Abs` between the LogicSim result and the WaveSim waveform on every signal; `predicts_solutions_all_circuits`
+— the same between ANY solution of the 8-valued gate equations in the documented algebra and ANY solution of the waveform
+gate equations (no execution order); `sim8_predicts_all_circuits_stripped` — WaveSim with `strip_forks` (eight-index rows),
+on every signal that is not a stripped branch, no hypothesis on fork delays. `KnownProg` and `cfg.Good` are discharged
+(`genOps_known`, `good_all_circuits`). **Correspondence (not theorem):** that the real `SimOps.__init__` produces the rows of
+the model (C01/C08) and that `wave_eval_cpu` is `waveSem` (C03); the domain hypotheses `wfB`, `orderOKB`, `forksOKB` are
+evaluated by the driver on every real circuit and order. -/
 namespace KV.C05
 open KV KV.Sig KV.Wave
 
@@ -109,6 +123,128 @@ theorem const_means_quiet {v : V3} {w : Wv} (h : Abs v w) (hc : v.p2 = false) (t
   refine ⟨?_, ?_, h.2.2.1, h.2.2.2.1⟩
   · rcases h.2.2.2.2 hc with he | he <;> simp [specEat, he]
   · rcases h.2.2.2.2 hc with he | he <;> simp [specLst, he]
+
+/-! ## ALL circuits
+
+The statements start from a NETLIST: every well-formed `net` (`Net.wfB`), every topological `order` (`orderOKB`), the op
+program of the `SimOps` model with the generated prefix table; every delay annotation with delays ≥ 0 and every capacity
+table with at least 4 entries on every line and on the scratch slot. `KnownProg` and `cfg.Good` are no longer hypotheses
+(`genOps_known`, `good_all_circuits`). -/
+
+/-- delays ≥ 0 and capacities ≥ 4 on the lines and the scratch slot give `cfg.Good` for the program of ANY netlist -/
+theorem good_all_circuits (cfg : WCfg) (net : Net) (order : List Nat) (strip : Bool) (hwf : net.wfB = true)
+    (ho : orderOKB net order = true) (hd : ∀ l p q, 0 ≤ cfg.delay l p q)
+    (hc : ∀ l, l < net.lines.size → 4 ≤ cfg.cap l) (ht : 4 ≤ cfg.cap net.idx.tmp) :
+    cfg.Good ((genOps Gen.kindPrefixes net order strip).map OpRow.toOp) :=
+  good_of_caps Gen.kindPrefixes cfg net order strip hwf ho hd hc ht
+
+/-- **every netlist, every topological order, every delay annotation ≥ 0, capacities ≥ 4**: if the 8-valued stimulus
+    abstracts the stimulus waveforms, then on EVERY signal the result of the 8-valued logic simulation abstracts the
+    waveform the timing simulation produces: same initial and final value, and no activity bit ⇒ no transition. -/
+theorem sim8_predicts_all_circuits (net : Net) (order : List Nat) (hwf : net.wfB = true) (ho : orderOKB net order = true)
+    (cfg : WCfg) (hd : ∀ l p q, 0 ≤ cfg.delay l p q) (hc : ∀ l, l < net.lines.size → 4 ≤ cfg.cap l)
+    (ht : 4 ≤ cfg.cap net.idx.tmp) (e8 : Nat → V3) (ew : Nat → Wv) (h : ∀ l, Abs (e8 l) (ew l)) (l : Nat) :
+    Abs (exec semL8 ((genOps Gen.kindPrefixes net order false).map OpRow.toOp) e8 l)
+      (simWave cfg ((genOps Gen.kindPrefixes net order false).map OpRow.toOp) ew l) :=
+  sim8_predicts cfg _ (genOps_known net order false) (good_all_circuits cfg net order false hwf ho hd hc ht) e8 ew h l
+
+/-- … in terms of the gate equations, without an execution order: ANY solution `val8` of the netlist's 8-valued gate
+    equations in the documented algebra (`specL8`; = the LogicSim result, `C02.sim8_all_circuits`) abstracts ANY solution
+    `valw` of its waveform gate equations (`waveSem cfg`: `_wave_eval` with the delays of the operand lines and the capacity
+    of the output line; = the WaveSim result, `C01.all_circuits_solution`) on every line -/
+theorem predicts_solutions_all_circuits (net : Net) (order : List Nat) (hwf : net.wfB = true)
+    (ho : orderOKB net order = true) (cfg : WCfg) (hd : ∀ l p q, 0 ≤ cfg.delay l p q)
+    (hc : ∀ l, l < net.lines.size → 4 ≤ cfg.cap l) (ht : 4 ≤ cfg.cap net.idx.tmp)
+    (e8 val8 : Nat → V3) (ew valw : Nat → Wv) (h : ∀ l, Abs (e8 l) (ew l))
+    (h8 : SolvesJ (Jt net) (fun op => specL8 op.code) ((genOps Gen.kindPrefixes net order false).map OpRow.toOp) e8 val8)
+    (hw : SolvesJ (Jt net) (waveSem cfg) ((genOps Gen.kindPrefixes net order false).map OpRow.toOp) ew valw)
+    (x : Nat) (hx : Jt net x = false) : Abs (val8 x) (valw x) := by
+  have hwo := genOps_WOJ Gen.kindPrefixes net order false hwf ho
+  rw [(logic_all_circuits semL8 specL8 (fun _ hk xs => semL8_eq_spec hk xs) net order false hwf ho e8).2 val8 h8 x hx,
+    solution_uniqueJ (Jt net) (waveSem cfg) _ hwo ew valw hw x hx]
+  exact sim8_predicts_all_circuits net order hwf ho cfg hd hc ht e8 ew h x
+
+/-- the stimulus of the property: every input carries 0, 1, a rise or a fall (`ini`, `fin`) at any time `t` -/
+def stim8 (ini fin : Nat → Bool) : Nat → V3 := fun l => ⟨fin l, ini l, ini l != fin l⟩
+def stimW (ini fin : Nat → Bool) (t : Nat → Int) : Nat → Wv := fun l => stimWave (ini l) (t l) (fin l)
+
+/-- **the property as stated**: stimulus over {0, 1, R, F} with any transition times, every netlist, delays ≥ 0,
+    capacities ≥ 4 -/
+theorem sim8_predicts_stimulus_all_circuits (net : Net) (order : List Nat) (hwf : net.wfB = true)
+    (ho : orderOKB net order = true) (cfg : WCfg) (hd : ∀ l p q, 0 ≤ cfg.delay l p q)
+    (hc : ∀ l, l < net.lines.size → 4 ≤ cfg.cap l) (ht : 4 ≤ cfg.cap net.idx.tmp)
+    (ini fin : Nat → Bool) (t : Nat → Int) (l : Nat) :
+    Abs (exec semL8 ((genOps Gen.kindPrefixes net order false).map OpRow.toOp) (stim8 ini fin) l)
+      (simWave cfg ((genOps Gen.kindPrefixes net order false).map OpRow.toOp) (stimW ini fin t) l) :=
+  sim8_predicts_all_circuits net order hwf ho cfg hd hc ht _ _ (fun x => stim_abs (ini x) (fin x) (t x)) l
+
+/-- **with `strip_forks` in the timing simulator** (domain hypothesis `forksOKB`, C06): the waveform model of the stripped
+    WaveSim (eight-index rows: stems as value sources, branches as delay lines) is abstracted, on every signal that is not a
+    stripped branch, by THE solution of the 8-valued gate equations of the un-stripped netlist. No hypothesis on fork
+    delays or monotone stems is needed here (unlike `C06.strip_equiv_all_circuits`): the abstraction holds for every program. -/
+theorem sim8_predicts_all_circuits_stripped (net : Net) (order : List Nat) (hwf : net.wfB = true)
+    (ho : orderOKB net order = true) (hf : forksOKB net order = true) (cfg : WCfg) (hd : ∀ l p q, 0 ≤ cfg.delay l p q)
+    (hc : ∀ l, l < net.lines.size → 4 ≤ cfg.cap l) (ht : 4 ≤ cfg.cap net.idx.tmp)
+    (e8 val8 : Nat → V3) (ew : Nat → Wv) (h : ∀ l, Abs (e8 l) (ew l))
+    (h8 : SolvesJ (Jt net) (fun op => specL8 op.code) ((genOps Gen.kindPrefixes net order false).map OpRow.toOp) e8 val8)
+    (x : Nat) (hj : Jt net x = false) (hx : (stemsOf net true).getD x none = none) :
+    Abs (val8 x) (simWave cfg ((genOps Gen.kindPrefixes net order true).map (fun r => redirect (stemList net) r.toOp)) ew x) := by
+  rw [(logic_all_circuits semL8 specL8 (fun _ hk xs => semL8_eq_spec hk xs) net order false hwf ho e8).2 val8 h8 x hj,
+    ← (strip_sig_logic Gen.kindPrefixes net order hwf ho hf semL8 default semL8_buf1 e8).1 x hx,
+    ← exec8_redirect Gen.kindPrefixes net order e8]
+  exact sim8_predicts cfg _ (genOps_known_map net order true (fun r => redirect (stemList net) r.toOp) (fun _ => rfl))
+    (good_map cfg _ OpRow.toOp (fun r => redirect (stemList net) r.toOp) (fun _ => rfl)
+      (good_all_circuits cfg net order true hwf ho hd hc ht)) e8 ew h x
+
+/-! ### non-vacuity (netlists of `Proofs/AllCircDemo.lean` = `C01.demoNet`, `C06.forkNet`) -/
+
+/-- delays 2 everywhere, capacity 8 -/
+def demoCfg : WCfg := ⟨fun _ _ _ => 2, fun _ => 8⟩
+theorem demoCfg_ok : (∀ l p q, 0 ≤ demoCfg.delay l p q) ∧ ∀ l, 4 ≤ demoCfg.cap l :=
+  ⟨fun _ _ _ => by show (0 : Int) ≤ 2; decide, fun _ => by show 4 ≤ 8; decide⟩
+
+/-- `demoNet` (AND2 + INV1): `a` (slot 9) rises at 5, `b` (slot 10) is 1 — the inverter output (line 5) falls, at 5 + 2·4 -/
+def demoIni : Nat → Bool := fun l => l == 10
+def demoFin : Nat → Bool := fun l => l == 9 || l == 10
+example : exec semL8 ((genOps Gen.kindPrefixes Demo.demoNet Demo.demoOrder false).map OpRow.toOp) (stim8 demoIni demoFin) 5
+      = ⟨false, true, true⟩ ∧
+    simWave demoCfg ((genOps Gen.kindPrefixes Demo.demoNet Demo.demoOrder false).map OpRow.toOp)
+      (stimW demoIni demoFin (fun _ => 5)) 5 = ⟨[T.tmin, T.fin 13], T.tmax⟩ := by decide +kernel
+example (l : Nat) := sim8_predicts_stimulus_all_circuits Demo.demoNet Demo.demoOrder Demo.demo_hyps.1 Demo.demo_hyps.2.1
+  demoCfg demoCfg_ok.1 (fun k _ => demoCfg_ok.2 k) (demoCfg_ok.2 _) demoIni demoFin (fun _ => 5) l
+
+/-- … with `a` = 0 instead: the 8-valued result on the AND output (line 4) is a quiet 0 and the waveform has no transition -/
+example : exec semL8 ((genOps Gen.kindPrefixes Demo.demoNet Demo.demoOrder false).map OpRow.toOp)
+      (stim8 (fun _ => false) (fun l => l == 10)) 4 = V3.zero ∧
+    simWave demoCfg ((genOps Gen.kindPrefixes Demo.demoNet Demo.demoOrder false).map OpRow.toOp)
+      (stimW (fun _ => false) (fun l => l == 10) (fun _ => 5)) 4 = ⟨[], T.tmax⟩ := by decide +kernel
+
+/-- `predicts_solutions_all_circuits`: its hypotheses hold for the simulation results themselves -/
+example (x : Nat) (hx : Jt Demo.demoNet x = false) :=
+  predicts_solutions_all_circuits Demo.demoNet Demo.demoOrder Demo.demo_hyps.1 Demo.demo_hyps.2.1
+    demoCfg demoCfg_ok.1 (fun l _ => demoCfg_ok.2 l) (demoCfg_ok.2 _) (stim8 demoIni demoFin) _ (stimW demoIni demoFin (fun _ => 5)) _
+    (fun l => stim_abs _ _ _)
+    (logic_all_circuits semL8 specL8 (fun _ hk xs => semL8_eq_spec hk xs) Demo.demoNet Demo.demoOrder false
+      Demo.demo_hyps.1 Demo.demo_hyps.2.1 _).1
+    (execG_solution (Jt Demo.demoNet) (waveSem demoCfg) _
+      (genOps_WOJ Gen.kindPrefixes Demo.demoNet Demo.demoOrder false Demo.demo_hyps.1 Demo.demo_hyps.2.1) _) x hx
+
+/-- the stripped statement applies to `forkNet` (OR output, line 7, is not a branch): `a` (slot 12) rises at 5, `b` (slot 13)
+    falls at 40 (the fork rows carry delay 2 here, so the stripped waveform — rise at 9 — differs from the un-stripped one —
+    rise at 13 —; both are abstracted by the same 8-valued RISE) -/
+example := sim8_predicts_all_circuits_stripped Demo.forkNet Demo.forkOrder Demo.fork_hyps.1 Demo.fork_hyps.2.1
+  Demo.fork_hyps.2.2.1 demoCfg demoCfg_ok.1 (fun l _ => demoCfg_ok.2 l) (demoCfg_ok.2 _)
+  (stim8 (fun l => l == 13) (fun l => l == 12)) _ (stimW (fun l => l == 13) (fun l => l == 12) (fun l => if l = 12 then 5 else 40))
+  (fun l => stim_abs _ _ _)
+  (logic_all_circuits semL8 specL8 (fun _ hk xs => semL8_eq_spec hk xs) Demo.forkNet Demo.forkOrder false
+    Demo.fork_hyps.1 Demo.fork_hyps.2.1 _).1 7 (by decide +kernel) (by decide +kernel)
+example : simWave demoCfg ((genOps Gen.kindPrefixes Demo.forkNet Demo.forkOrder true).map
+      (fun r => redirect (stemList Demo.forkNet) r.toOp))
+      (stimW (fun l => l == 13) (fun l => l == 12) (fun l => if l = 12 then 5 else 40)) 7 = ⟨[T.fin 9], T.tmax⟩ ∧
+    simWave demoCfg ((genOps Gen.kindPrefixes Demo.forkNet Demo.forkOrder false).map OpRow.toOp)
+      (stimW (fun l => l == 13) (fun l => l == 12) (fun l => if l = 12 then 5 else 40)) 7 = ⟨[T.fin 13], T.tmax⟩ ∧
+    exec semL8 ((genOps Gen.kindPrefixes Demo.forkNet Demo.forkOrder false).map OpRow.toOp)
+      (stim8 (fun l => l == 13) (fun l => l == 12)) 7 = ⟨true, false, true⟩ := by decide +kernel
 
 /-- non-vacuity: AND2 of a constant 1 and a rising input is a rise; of a constant 0 and a rise is a quiet 0 -/
 example : semL8 34952 [⟨true, true, false⟩, ⟨true, false, true⟩, default, default] = ⟨true, false, true⟩ := by decide +kernel
